@@ -312,7 +312,7 @@ func (rn *runner) run(kind int, counter uint64, ops []hx.Group) []byte {
 				// oracle: decoding the bytes yields equal fields
 				m2, _ := message.Type(kind).New()
 				d := doDecode(m2, exact(r.bytes))
-				if refOK(m) {
+				if refOK(m) && pristine == nil {
 					if !d.ok || d.n != r.n {
 						rn.out.Oracle(caseNo, "bytes %x written by Encode are not accepted by Decode (ok=%v n=%d panic=%v)", r.bytes, d.ok, d.n, d.panic)
 					} else if f1, f2 := fields(m), fields(m2); !sameGroup(f1, f2) {
